@@ -258,7 +258,7 @@ def count_nontrivial(events):
     return len(seen)
 
 
-def run_fs(ctx, laws, keep, owns, profile=None, twins=False, post=None):
+def run_fs(ctx, laws, keep, owns, profile=None, twins=False, post=None, lz=False):
     """model check -> generate -> replay -> validate -> (record -> validate).  Returns (replayed events, recorded events)."""
     binary = ctx.build("release", "mvh_fs")
     # 1. the laws on the bounded model
@@ -282,6 +282,8 @@ def run_fs(ctx, laws, keep, owns, profile=None, twins=False, post=None):
             post(events, bad, "spec->impl")
         else:
             report(ctx, events, bad, owns, "spec->impl")
+        if lz:
+            validate_streams_with_lz_spec(ctx, events, "gen%d" % gi)
         all_events += events
     n_calls = sum(1 for e in all_events if e["op"] not in ("reset", "new", "abort"))
     ctx.traces += n_calls
@@ -296,6 +298,8 @@ def run_fs(ctx, laws, keep, owns, profile=None, twins=False, post=None):
         rec = record(ctx, binary, runs, length, profile, "rec")
         bad = validate(ctx, rec, "rec")
         report(ctx, rec, bad, owns, "impl->spec")
+        if lz:
+            validate_streams_with_lz_spec(ctx, rec, "rec")
         n_rec = sum(1 for e in rec if e["op"] not in ("reset", "new", "abort"))
         ctx.traces += n_rec
         ctx.evaluations += len(rec)
@@ -312,7 +316,58 @@ COMMON_ASSUMPTIONS = [
     "the OS filesystem behaves as a plain tree (no symlinks, permissions, case folding, concurrent modification); layer roots "
     "are fresh directories with plain alphanumeric names",
     "expansion of stored bytes is an observed environment function (mila's own LZ10/LZ13 decompressors, whose correctness is "
-    "C11's subject); validating on-disk streams with the TLA+ decoder of spec/LZ.tla is left as a residual",
+    "C11's subject); C12 additionally lets the decoder state machine of spec/LZ.tla judge the streams written to disk "
+    "when that module is available (see lz_spec_stream_validation)",
     "the harness' materialiser, directory walker and result projections are trusted; error kinds are compared as classes "
     "{notfound, loc, io, codec}",
 ]
+
+
+def stored_streams(events):
+    """records {game, p, data, stored} for every successful byte-level write that changed the top layer:
+    the file node of the top layer that is new or different afterwards"""
+    out = []
+    game = None
+    cur = None
+    for k, e in enumerate(events):
+        if e["op"] == "reset":
+            game, cur = e["game"], e["post"]
+            continue
+        if e["op"] in ("new", "abort"):
+            continue
+        if not e.get("same", True):
+            if e["op"] == "write" and e["res"].get("ok") and cur is not None:
+                before = {json.dumps(n["p"]): n for n in cur[-1]}
+                changed = [n for n in e["post"][-1] if n["k"] == "file" and before.get(json.dumps(n["p"])) != n]
+                if len(changed) == 1:
+                    out.append({"game": game, "p": e["p"], "data": e["data"], "stored": changed[0]["b"], "index": k})
+            cur = e["post"]
+    return out
+
+
+def validate_streams_with_lz_spec(ctx, events, tag):
+    """Optional: lets the decoder state machine of spec/LZ.tla (a sibling's module) judge the streams left on disk.
+    If that module is missing or does not load, this is skipped and noted as a residual (never a failure of this check)."""
+    recs = stored_streams(events)
+    if not recs or not os.path.exists(os.path.join(vlib.SPEC, "LZ.tla")):
+        ctx.extra.setdefault("lz_spec_stream_validation", "skipped (spec/LZ.tla not available)" if recs else "no streams")
+        return
+    path = ctx.path("streams_%s.ndjson" % tag)
+    vlib.write_ndjson(path, [{k: r[k] for k in ("game", "p", "data", "stored")} for r in recs])
+    try:
+        t = ctx.tlc("Trace_LayeredFSLZ", env={"TRACE": path}, workers=1, count=False, deque=True, xmx="3g", timeout=1200)
+        rep = t.tagged("R")
+        if len(rep) != 1 or rep[0]["n"] != len(recs):
+            raise vlib.ToolError("not consumed")
+    except vlib.ToolError as ex:
+        ctx.log("note: spec/LZ.tla could not be used to validate on-disk streams (%s) - residual" % ex)
+        ctx.extra["lz_spec_stream_validation"] = "unavailable: %s" % ex
+        return
+    for b in rep[0]["bad"]:
+        r = recs[b - 1]
+        e = events[r["index"]]
+        ctx.violation(dict(_short(e), dir="on-disk stream rejected by the LZ.tla decoder", game=r["game"]),
+                      {"pre": pre_state_of(events, r["index"]), "event": e, "stored": r["stored"]})
+    prev = ctx.extra.get("lz_spec_streams_checked", 0)
+    ctx.extra["lz_spec_streams_checked"] = prev + rep[0]["checked"]
+    ctx.extra["lz_spec_stream_validation"] = "on-disk streams of compressed-suffix writes accepted by LZ.tla's decoder"
